@@ -624,7 +624,35 @@ func (c *Ctx) cloneIsDeep() {
 				}
 				break
 			}
-			if fromRecv(a) {
+			// the buffer may be chosen on the way (a fresh one on one branch, a buffer of the original on another): every
+			// value that can arrive counts
+			shared := false
+			seen := map[ssa.Value]bool{}
+			var arrive func(v ssa.Value, d int)
+			arrive = func(v ssa.Value, d int) {
+				if d > 6 || seen[v] || shared {
+					return
+				}
+				seen[v] = true
+				for i := 0; i < 4; i++ {
+					if sl, ok := v.(*ssa.Slice); ok {
+						v = sl.X
+						continue
+					}
+					break
+				}
+				if fromRecv(v) {
+					shared = true
+					return
+				}
+				if phi, ok := v.(*ssa.Phi); ok {
+					for _, e := range phi.Edges {
+						arrive(e, d+1)
+					}
+				}
+			}
+			arrive(a, 0)
+			if shared {
 				bad = append(bad, c.P.InstrPos(call)+" (decoded from a buffer of the original)")
 			}
 		}
